@@ -113,6 +113,8 @@ def run(tier, seed):
     )
     rep.extra["paths"] = info["paths"]
     rep.extra["numpy_models_used"] = sorted(info["models"])[:80]
+    if tier == "thorough":
+        rep.run_canaries(['c02_elem'])
     return rep.finish(min_obligations=300)
 
 
